@@ -873,6 +873,11 @@ class ContentElement(TTMLElement):
           StyleElement.from_xml(self, child_xml_element)
           continue
 
+        if issubclass(self.ttml_class, SetElement):
+          # <set> has neither content nor animation children
+          LOGGER.error("Child of <set> ignored")
+          continue
+
         child_element = ContentElement.from_xml(self, child_xml_element)
 
         if is_seq_blocked:
